@@ -274,6 +274,34 @@ impl<F, R> CongressSample<F, R> {
     }
 }
 
+/// Verification accessors (cfg `metrique_verif` only): the interval clock is not injectable, so
+/// the harness ends intervals by hand and reads the per-group state back.
+#[cfg(metrique_verif)]
+impl<F, R> CongressSample<F, R> {
+    /// End the current interval now: exactly what `sample_rate` does when the clock says so.
+    pub fn verif_end_interval(&mut self) {
+        self.next_interval_start = Instant::now() + self.interval;
+        self.update_rates();
+    }
+
+    /// `(group, sample rate, moving average of observed entries)` of every tracked group.
+    pub fn verif_rates(&self) -> Vec<(Vec<(String, String)>, f32, f32)> {
+        self.groups
+            .iter()
+            .map(|(group, state)| {
+                (
+                    group
+                        .iter()
+                        .map(|(k, v)| (k.to_string(), v.to_string()))
+                        .collect(),
+                    state.sample_rate,
+                    state.average_observed.current(),
+                )
+            })
+            .collect()
+    }
+}
+
 #[derive(Clone, Copy, Default)]
 struct GroupState {
     current_observed: u32,
